@@ -44,34 +44,78 @@ type c17Scenario struct {
 	MaxFaults   int    `json:"max_faults"` // faults per range start; afterwards every request is answered
 	LatencyMs   int    `json:"latency_ms"` // upper bound of the seeded per-request latency
 	MatcherMs   int    `json:"matcher_ms"` // upper bound of the seeded per-callback delay
+	NonFatalPct   int  `json:"nonfatal_pct"`   // share of entries whose certificate parses with a non-fatal error
+	UnparsablePct int  `json:"unparsable_pct"` // share of entries that do not parse at all
 }
 
-const c17MaxEntries = 96
+const c17MaxEntries = 1400
 
 var (
-	c17Once  sync.Once
+	c17Mu    sync.Mutex
+	c17CA    *kit.Cert
 	c17Certs [c17MaxEntries]*kit.Cert
 )
 
-func c17Pool() {
-	c17Once.Do(func() {
-		ca := kit.MakeCert(kit.CertSpec{Name: "CT Sim CA", Key: "p256_5", IsCA: true, MaxPathLen: -1, Serial: 900})
-		for i := range c17Certs {
-			key := "p256_6"
-			if i%3 == 1 {
-				key = "rsa4"
-			}
-			c17Certs[i] = kit.MakeCert(kit.CertSpec{Name: fmt.Sprintf("entry-%d.ct.sim.test", i), Key: key, Issuer: ca, Serial: int64(1000 + i), DNSNames: []string{fmt.Sprintf("entry-%d.ct.sim.test", i)}})
+// c17Cert returns the (memoised, deterministic) certificate of log entry i.
+func c17Cert(i int) *kit.Cert {
+	c17Mu.Lock()
+	defer c17Mu.Unlock()
+	if c17CA == nil {
+		c17CA = kit.MakeCert(kit.CertSpec{Name: "CT Sim CA", Key: "p256_5", IsCA: true, MaxPathLen: -1, Serial: 900})
+	}
+	if c17Certs[i] == nil {
+		key := "p256_6"
+		if i%3 == 1 {
+			key = "rsa4"
 		}
-	})
+		c17Certs[i] = kit.MakeCert(kit.CertSpec{Name: fmt.Sprintf("entry-%d.ct.sim.test", i), Key: key, Issuer: c17CA, Serial: int64(1000 + i), DNSNames: []string{fmt.Sprintf("entry-%d.ct.sim.test", i)}})
+	}
+	return c17Certs[i]
+}
+
+func c17Pool(n int) {
+	for i := 0; i < n; i++ {
+		c17Cert(i)
+	}
+}
+
+// entry kinds
+const (
+	c17Normal     = 0
+	c17NonFatal   = 1 // parses with a non-fatal error (negative serial number): still handed to the matcher
+	c17Unparsable = 2 // fatal parse error: by design not handed to the matcher
+)
+
+func c17Kind(sc *c17Scenario, i int) int {
+	h := kit.NewRng(sc.Seed ^ uint64(i+3)*0x51f15e)
+	v := h.Intn(100)
+	switch {
+	case v < sc.NonFatalPct:
+		return c17NonFatal
+	case v < sc.NonFatalPct+sc.UnparsablePct:
+		return c17Unparsable
+	}
+	return c17Normal
+}
+
+// negSerial flips the sign bit of the two-byte serial number INTEGER that directly follows the
+// version field, which makes the certificate parse with a non-fatal "negative serial number" error.
+func negSerial(der []byte) []byte {
+	d := append([]byte(nil), der...)
+	k := bytes.Index(d, []byte{0xa0, 0x03, 0x02, 0x01, 0x02, 0x02, 0x02})
+	if k < 0 || k > 16 {
+		panic("c17: unexpected certificate layout")
+	}
+	d[k+7] |= 0x80
+	return d
 }
 
 func genC17(seed uint64, tier string) any {
 	r := kit.NewRng(seed)
 	sc := &c17Scenario{Seed: seed}
-	sc.TreeSize = []int{0, 1, 2, 5, 17, 40, 80, c17MaxEntries}[r.Intn(8)]
+	sc.TreeSize = []int{0, 1, 2, 5, 17, 40, 80, 96}[r.Intn(8)]
 	if r.Chance(1, 2) {
-		sc.TreeSize = r.Intn(c17MaxEntries + 1)
+		sc.TreeSize = r.Intn(97)
 	}
 	if sc.TreeSize > 0 && r.Chance(1, 3) {
 		sc.Start = r.Intn(sc.TreeSize)
@@ -89,6 +133,18 @@ func genC17(seed uint64, tier string) any {
 	sc.MaxFaults = r.Range(1, 4)
 	sc.LatencyMs = []int{0, 1, 30, 700}[r.Intn(4)]
 	sc.MatcherMs = []int{0, 0, 2, 40}[r.Intn(4)]
+	sc.NonFatalPct = []int{0, 0, 30, 100}[r.Intn(4)]
+	sc.UnparsablePct = []int{0, 0, 0, 25}[r.Intn(4)]
+	if sc.NonFatalPct+sc.UnparsablePct > 100 {
+		sc.UnparsablePct = 0
+	}
+	if r.Chance(1, 30) {
+		// more range requests than the scanner's internal queues hold: many single-entry batches
+		sc.TreeSize = r.Range(1001, 1300)
+		sc.Start, sc.MaxIndex, sc.Batch = 0, 0, 1
+		sc.FaultPct, sc.PrefixPct = []int{0, 10}[r.Intn(2)], 0
+		sc.LatencyMs, sc.MatcherMs = []int{0, 1}[r.Intn(2)], 0
+	}
 	return sc
 }
 
@@ -96,9 +152,16 @@ func u24(n int) []byte { return []byte{byte(n >> 16), byte(n >> 8), byte(n)} }
 
 // leafAndExtra encodes entry i per RFC 6962 sections 3.4 and 4.6.
 func c17Entry(sc *c17Scenario, i int) (leaf, extra []byte, precert bool) {
-	c := c17Certs[i]
+	c := c17Cert(i)
 	h := kit.NewRng(sc.Seed ^ uint64(i)*0x9e37)
 	precert = h.Intn(100) < sc.PrecertPct
+	der, tbs := c.DER, c.Std.RawTBSCertificate
+	switch c17Kind(sc, i) {
+	case c17NonFatal:
+		der, tbs = negSerial(der), negSerial(tbs)
+	case c17Unparsable:
+		der, tbs = []byte{0x31, 0x03, 0x02, 0x01, byte(i)}, []byte{0x31, 0x03, 0x02, 0x01, byte(i)}
+	}
 	var b bytes.Buffer
 	b.WriteByte(0) // v1
 	b.WriteByte(0) // timestamped_entry
@@ -108,7 +171,6 @@ func c17Entry(sc *c17Scenario, i int) (leaf, extra []byte, precert bool) {
 		var ikh [32]byte
 		ikh[0] = byte(i)
 		b.Write(ikh[:])
-		tbs := c.Std.RawTBSCertificate
 		b.Write(u24(len(tbs)))
 		b.Write(tbs)
 		extra = append(extra, u24(len(c.DER))...)
@@ -116,8 +178,8 @@ func c17Entry(sc *c17Scenario, i int) (leaf, extra []byte, precert bool) {
 		extra = append(extra, u24(0)...)
 	} else {
 		binary.Write(&b, binary.BigEndian, uint16(0))
-		b.Write(u24(len(c.DER)))
-		b.Write(c.DER)
+		b.Write(u24(len(der)))
+		b.Write(der)
 		extra = u24(0)
 	}
 	b.Write([]byte{0, 0}) // no extensions
@@ -251,7 +313,8 @@ func (m c17Matcher) delay(idx int) {
 func c17Verdict(sc *c17Scenario, idx int) bool { return (uint64(idx)*2654435761+sc.Seed)%3 != 0 }
 
 func (m c17Matcher) CertificateMatches(c *ctx509.Certificate) bool {
-	idx := int(c.SerialNumber.Int64()) - 1000
+	idx := -1
+	fmt.Sscanf(c.Subject.CommonName, "entry-%d.ct.sim.test", &idx)
 	if idx < 0 || idx >= c17MaxEntries {
 		atomic.AddInt32(m.bad, 1)
 		return false
@@ -272,7 +335,7 @@ func (m c17Matcher) PrecertificateMatches(p *ct.Precertificate) bool {
 func execC17(t *testing.T, scAny any, keepLog bool) *Outcome {
 	sc := scAny.(*c17Scenario)
 	o := &Outcome{Counters: map[string]int{}}
-	c17Pool()
+	c17Pool(sc.TreeSize)
 	var hits, found [c17MaxEntries]int32
 	var foundWrongIndex, foundWrongLeaf, bad int32
 	srv := &simLog{sc: sc}
@@ -300,11 +363,12 @@ func execC17(t *testing.T, scAny any, keepLog bool) *Outcome {
 			// the entry delivered under index i must be the one the server stored at i
 			wantLeaf, _, pre := c17Entry(sc, i)
 			_ = wantLeaf
-			var raw []byte
+			raw := c17Cert(i).DER
 			if pre {
-				raw = c17Certs[i].Std.RawTBSCertificate
-			} else {
-				raw = c17Certs[i].DER
+				raw = c17Cert(i).Std.RawTBSCertificate
+			}
+			if c17Kind(sc, i) == c17NonFatal {
+				raw = negSerial(raw)
 			}
 			if !bytes.Equal(e.RawCert, raw) || e.IsPrecert != pre || e.Leaf.TimestampedEntry.Timestamp != uint64(1_000_000+i) {
 				atomic.AddInt32(&foundWrongLeaf, 1)
@@ -359,9 +423,15 @@ func execC17(t *testing.T, scAny any, keepLog bool) *Outcome {
 	}
 	if o.Fail == nil {
 		for i := 0; i < c17MaxEntries; i++ {
+			if i >= sc.TreeSize {
+				if hits[i] != 0 || found[i] != 0 {
+					o.Fail = Failf("c17.exactly_once", "entry outside the log handed to a callback", "entry %d", i)
+				}
+				continue
+			}
 			_, _, pre := c17Entry(sc, i)
 			want := int32(0)
-			if i >= sc.Start && i < stop && !(sc.PrecertOnly && !pre) {
+			if i >= sc.Start && i < stop && !(sc.PrecertOnly && !pre) && c17Kind(sc, i) != c17Unparsable {
 				want = 1
 			}
 			if hits[i] != want {
